@@ -386,11 +386,11 @@ pub async fn run_case(
                     }
                     w.slots.insert(s, moved);
                 }
-                "CreateFile" => {
-                    let (s, f) = (a(2), a(3));
-                    let fid = *w.folders.get(&f).ok_or_else(|| anyhow!("no folder {f}"))?;
-                    let body_marker = values::marker("attachment", &format!("{idx}:{s}"));
-                    let name_marker = values::marker("field", &format!("{idx}:{s}:filename"));
+                "CreateFile" | "UpdateFile" | "AttachFile" => {
+                    let s = a(2);
+                    let tag = format!("{idx}:{s}:{name}:{n}");
+                    let body_marker = values::marker("attachment", &tag);
+                    let name_marker = values::marker("field", &format!("{tag}:filename"));
                     let path = w.inputs.join(format!("{name_marker}.txt"));
                     let mut body = format!("external file body {body_marker}\n").into_bytes();
                     body.extend(std::iter::repeat(b'x').take(70_000));
@@ -398,13 +398,41 @@ pub async fn run_case(
                     std::fs::write(&path, &body)?;
                     w.reg.secret("attachment", "content of an external file", body_marker.as_bytes());
                     w.reg.secret("field", "name of an external file", name_marker.as_bytes());
-                    let secret: sos_vault::secret::Secret = path.clone().try_into()?;
-                    let label_marker = values::marker("label", &format!("{idx}:{s}:file"));
+                    let label_marker = values::marker("label", &format!("{tag}:file"));
                     w.reg.secret("label", "label of a file secret", label_marker.as_bytes());
-                    let meta = sos_vault::secret::SecretMeta::new(format!("file {label_marker}"), secret.kind());
-                    out.nontrivial_keys.push("variant:external-file".to_string());
+                    out.nontrivial_keys.push(format!("variant:external-file:{name}"));
                     let mut acc = w.sync.devices[di].account.lock().await;
-                    acc.create_secret(meta, secret, (&fid).into()).await?;
+                    match name.as_str() {
+                        "CreateFile" => {
+                            let f = a(3);
+                            let fid = *w.folders.get(&f).ok_or_else(|| anyhow!("no folder {f}"))?;
+                            let secret: sos_vault::secret::Secret = path.clone().try_into()?;
+                            let meta = sos_vault::secret::SecretMeta::new(format!("file {label_marker}"), secret.kind());
+                            let ch = acc.create_secret(meta, secret, (&fid).into()).await?;
+                            w.slots.insert(s, vec![(fid, ch.id)]);
+                        }
+                        "UpdateFile" => {
+                            let (fid, sid) = w.slots.get(&s).and_then(|v| v.first()).cloned()
+                                .ok_or_else(|| anyhow!("slot {s} has no secret"))?;
+                            let meta = sos_vault::secret::SecretMeta::new(
+                                format!("file {label_marker}"),
+                                sos_vault::secret::SecretType::File,
+                            );
+                            let ch = acc.update_file(&sid, meta, &path, (&fid).into()).await?;
+                            w.slots.insert(s, vec![(fid, ch.id)]);
+                        }
+                        _ => {
+                            // attach the file as a custom field of the slot's first secret
+                            let (fid, sid) = w.slots.get(&s).and_then(|v| v.first()).cloned()
+                                .ok_or_else(|| anyhow!("slot {s} has no secret"))?;
+                            let (mut row, _) = acc.read_secret(&sid, Some(&fid)).await?;
+                            let secret: sos_vault::secret::Secret = path.clone().try_into()?;
+                            let meta = sos_vault::secret::SecretMeta::new(format!("attachment {label_marker}"), secret.kind());
+                            let field = sos_vault::secret::SecretRow::new(sos_core::SecretId::new_v4(), meta, secret);
+                            row.secret_mut().add_field(field);
+                            acc.update_secret(&sid, row.meta().clone(), Some(row.secret().clone()), (&fid).into()).await?;
+                        }
+                    }
                 }
                 "CreateFolder" => {
                     let (f, e) = (a(2), a(3));
